@@ -780,61 +780,93 @@ Proof.
   reflexivity.
 Qed.
 
-(** Completeness outside F12. *)
-Theorem ipv6_complete s : valid_AAAA s -> ~ f12_shape s -> checkIPv6 s = Halt true.
+(** Completeness: form 1 ... *)
+Lemma full_accept G :
+  length G = 8%nat -> Forall hexgroup G -> global_unicast6 (map hexval G) ->
+  checkIPv6 (join 58 G) = Halt true.
 Proof.
-  intros (g & Ht & Hg) Hn12. rewrite checkIPv6_unfold.
-  destruct Ht as [G HG8 GG|L R GL GR Hlen].
-  - (* form 1 *)
-    assert (Hne : G <> []) by (destruct G; [discriminate|discriminate]).
-    pose proof (join_len_lt G Hne GG) as Hub. pose proof (join_len_ge G Hne GG) as Hlb.
-    replace ((len (join 58 G) <? 2) || (39 <? len (join 58 G))) with false by (unfold len; lia).
-    rewrite std_split_ok by (try apply join_ascii; try assumption; unfold len; lia). cbn [obind].
-    rewrite split_join_groups by assumption.
-    replace ((len G <? 3) || (8 <? len G)) with false by (unfold len; lia).
-    rewrite run_groups by (assumption || lia). cbn [obind].
-    replace ((len G <? 8) && negb false) with false by (unfold len; lia).
-    rewrite HG8. cbn [Nat.sub repeat]. rewrite app_nil_r.
-    apply gcheck_len8; [unfold vals; rewrite map_length; assumption|exact Hg].
+  intros HG8 GG Hg. rewrite checkIPv6_unfold.
+  assert (Hne : G <> []) by (destruct G; [discriminate|discriminate]).
+  pose proof (join_len_lt G Hne GG) as Hub. pose proof (join_len_ge G Hne GG) as Hlb.
+  replace ((len (join 58 G) <? 2) || (39 <? len (join 58 G))) with false by (unfold len; lia).
+  rewrite std_split_ok by (try apply join_ascii; try assumption; unfold len; lia). cbn [obind].
+  rewrite split_join_groups by assumption.
+  replace ((len G <? 3) || (8 <? len G)) with false by (unfold len; lia).
+  rewrite run_groups by (assumption || lia). cbn [obind].
+  replace ((len G <? 8) && negb false) with false by (unfold len; lia).
+  rewrite HG8. cbn [Nat.sub repeat]. rewrite app_nil_r.
+  apply gcheck_len8; [unfold vals; rewrite map_length; assumption|exact Hg].
+Qed.
+
+(** ... and form 2, unless the "::" follows seven groups. *)
+Lemma compressed_accept L R :
+  L <> [] -> Forall hexgroup L -> Forall hexgroup R -> (length L + length R <= 7)%nat ->
+  (R = [] -> (length L <= 6)%nat) ->
+  global_unicast6 (map hexval L ++ repeat 0 (8 - length L - length R) ++ map hexval R) ->
+  checkIPv6 (join 58 L ++ [58; 58]%N ++ join 58 R) = Halt true.
+Proof.
+  intros HLne GL GR Hlen Hn6 Hg. rewrite checkIPv6_unfold.
+  pose proof (join_len_lt L HLne GL) as HubL. pose proof (join_len_le R GR) as HubR.
+  set (s := join 58 L ++ [58; 58]%N ++ join 58 R).
+  assert (Hls : (2 <= length s <= 39)%nat).
+  { subst s. rewrite !app_length. cbn [length]. lia. }
+  assert (Hasc : Forall (fun c => (c < 128)%N) s).
+  { subst s. rewrite !Forall_app. repeat split; try apply join_ascii; try assumption.
+    repeat constructor; lia. }
+  replace ((len s <? 2) || (39 <? len s)) with false by (unfold len; lia).
+  rewrite std_split_ok by (try assumption; unfold len; lia). cbn [obind].
+  subst s. rewrite split_compressed by assumption.
+  replace (side L) with L by (destruct L; [congruence|reflexivity]).
+  destruct R as [|r0 R0].
+  - (* "L::" *)
+    cbn [side]. specialize (Hn6 eq_refl).
+    replace ((len (L ++ [[]; []]) <? 3) || (8 <? len (L ++ [[]; []]))) with false
+      by (rewrite len_app; pose proof (len_pos_nonnil L HLne); llia).
+    rewrite run_right by (assumption || lia). cbn [obind negb]. rewrite andb_false_r.
+    cbn [map length] in Hg. rewrite app_nil_r, Nat.sub_0_r in Hg.
+    apply gcheck_len8; [|exact Hg].
+    unfold vals. rewrite app_length, map_length, repeat_length. lia.
+  - (* "L::R" *)
+    set (R := r0 :: R0) in *.
+    assert (HRne : R <> []) by discriminate.
+    change (side R) with R.
+    replace ((len (L ++ [] :: R) <? 3) || (8 <? len (L ++ [] :: R))) with false
+      by (rewrite len_app, len_cons; pose proof (len_pos_nonnil L HLne); pose proof (len_pos_nonnil R HRne); llia).
+    rewrite run_mid by assumption. cbn [obind negb]. rewrite andb_false_r.
+    apply gcheck_len8; [|exact Hg].
+    unfold vals. rewrite !app_length, !map_length, repeat_length. lia.
+Qed.
+
+(** Every global unicast text is accepted, or it is seven groups and "::". *)
+Lemma ipv6_complete_or s g :
+  textual_ipv6 s g -> global_unicast6 g ->
+  checkIPv6 s = Halt true \/
+  (exists L, length L = 7%nat /\ Forall hexgroup L /\ s = join 58 L ++ [58; 58]%N /\
+             g = map hexval L ++ repeat 0 1).
+Proof.
+  intros Ht Hg. destruct Ht as [G HG8 GG|L R GL GR Hlen].
+  - left. apply full_accept; assumption.
   - destruct L as [|l0 L0].
     { exfalso. cbn [map app length Nat.sub] in Hg.
       replace (8 - length R)%nat with (S (7 - length R)) in Hg by (cbn [length] in Hlen; lia).
       rewrite zeros_succ in Hg. exact (global_zero _ Hg). }
     set (L := l0 :: L0) in *.
     assert (HLne : L <> []) by discriminate.
-    pose proof (join_len_lt L HLne GL) as HubL. pose proof (join_len_le R GR) as HubR.
-    set (s := join 58 L ++ [58; 58]%N ++ join 58 R).
-    assert (Hls : (2 <= length s <= 39)%nat).
-    { subst s. rewrite !app_length. cbn [length]. lia. }
-    assert (Hasc : Forall (fun c => (c < 128)%N) s).
-    { subst s. rewrite !Forall_app. repeat split; try apply join_ascii; try assumption.
-      repeat constructor; lia. }
-    replace ((len s <? 2) || (39 <? len s)) with false by (unfold len; lia).
-    rewrite std_split_ok by (try assumption; unfold len; lia). cbn [obind].
-    subst s. rewrite split_compressed by assumption.
-    change (side L) with L.
     destruct R as [|r0 R0].
-    + (* "L::" *)
-      cbn [side].
-      assert (Hn6 : (length L <= 6)%nat).
-      { destruct (le_lt_dec (length L) 6) as [|Hbig]; [assumption|exfalso].
-        apply Hn12. exists L. split; [cbn [length] in Hlen; lia|split; [assumption|]].
-        cbn [join]. rewrite app_nil_r. reflexivity. }
-      replace ((len (L ++ [[]; []]) <? 3) || (8 <? len (L ++ [[]; []]))) with false
-        by (rewrite len_app; pose proof (len_pos_nonnil L HLne); llia).
-      rewrite run_right by (assumption || lia). cbn [obind negb]. rewrite andb_false_r.
-      cbn [map length] in Hg. rewrite app_nil_r, Nat.sub_0_r in Hg.
-      apply gcheck_len8; [|exact Hg].
-      unfold vals. rewrite app_length, map_length, repeat_length. lia.
-    + (* "L::R" *)
-      set (R := r0 :: R0) in *.
-      assert (HRne : R <> []) by discriminate.
-      change (side R) with R.
-      replace ((len (L ++ [] :: R) <? 3) || (8 <? len (L ++ [] :: R))) with false
-        by (rewrite len_app, len_cons; pose proof (len_pos_nonnil L HLne); pose proof (len_pos_nonnil R HRne); llia).
-      rewrite run_mid by assumption. cbn [obind negb]. rewrite andb_false_r.
-      apply gcheck_len8; [|exact Hg].
-      unfold vals. rewrite !app_length, !map_length, repeat_length. lia.
+    + destruct (le_lt_dec (length L) 6) as [Hsmall|Hbig].
+      * left. apply compressed_accept; try assumption. intros _. assumption.
+      * right. exists L. cbn [length] in Hlen.
+        split; [lia|split; [assumption|]]. cbn [join map length]. rewrite !app_nil_r.
+        split; [reflexivity|]. do 2 f_equal. lia.
+    + left. apply compressed_accept; try assumption. discriminate.
+Qed.
+
+(** Completeness outside F12. *)
+Theorem ipv6_complete s : valid_AAAA s -> ~ f12_shape s -> checkIPv6 s = Halt true.
+Proof.
+  intros (g & Ht & Hg) Hn12.
+  destruct (ipv6_complete_or s g Ht Hg) as [H|(L & H7 & GL & -> & _)]; [exact H|].
+  exfalso. apply Hn12. exists L. auto.
 Qed.
 
 (** The full characterisation of what ships. *)
